@@ -1028,7 +1028,7 @@ class Distributions(object):
             else:  # 'linear'
                 wu, wl = self.wu, self.wl
                 pc = [self._int_linear(wl, wu, c, Qw) for c in self.c]
-            pc = np.array(pc).T  # [r, n]
+            pc = np.array(pc, dtype=float).T  # [r, n]
 
         elif self.method == 'remap':
             # Coordinates.
@@ -1088,7 +1088,7 @@ class Distributions(object):
 
             # Integrals.
             pc = [self._int_remap(c, Qw) for c in self.c]
-            pc = np.array(pc).T  # [r, n]
+            pc = np.array(pc, dtype=float).T  # [r, n]
 
         else:
             raise ValueError('Incorrect method "{}"'.format(self.method))
